@@ -13,6 +13,14 @@ from .. import core, listsem, vt
 
 PROPERTY = "C05"
 LEVEL = "exploration"
+META = {
+    "engine": "vtx",
+    "technique": "bounded-exhaustive enumeration of (operator instance, timeline) pairs on virtual time against Python list references",
+    "text": "every listed element-wise operator, every parameter of its catalogue, every timeline of length <=N over small alphabets "
+    "(incl. None/0/False) ending in completion or error is executed on the real operator and compared value-by-value and "
+    "instant-by-instant with a list reference; exhaustive within N",
+    "note": "trusted: CPython, the harness in /verif/vf, the reference functions, VirtualTimeScheduler's queue discipline (checked by C28/C29)",
+}
 RULE = (
     "all (operator instance, timeline) pairs: timelines = every sequence of <=N on_next over the value alphabet at "
     "slots 210,220,.. followed by completion or error; non-trivial = the source emitted >=1 element and the reference "
